@@ -1,5 +1,6 @@
 /- Driver commands for the sub-field model (C09, C10). -/
 import LasModel.Model.SubField
+import LasModel.Model.Views
 import LasModel.Driver.Util
 namespace LasModel.Driver.Sf
 open LasModel.SubField LasModel.Driver.Util
@@ -26,6 +27,14 @@ def handle (args : List String) : Option String :=
       return showRes (assignCol (← mask.toNat?) (← parseHex col) (← parseNats idxs) (← parseInts vals))
   | ["read", mask, col] => do
       return showNats (readCol (← mask.toNat?) (← parseHex col))
+  | ["cmp", op, mask, col, c] => do
+      let op ← match op with
+        | "lt" => some Views.Cmp.lt | "le" => some Views.Cmp.le
+        | "gt" => some Views.Cmp.gt | "ge" => some Views.Cmp.ge | _ => none
+      let r := Views.cmpCol op (← mask.toNat?) (← parseHex col) (← c.toInt?)
+      return String.mk (r.map fun b => if b then '1' else '0')
+  | ["index", mask, col, idxs] => do
+      return showNats (Views.indexSub (← mask.toNat?) (← parseHex col) (← parseNats idxs))
   | ["max", mask] => do return toString (maxOf (← mask.toNat?))
   | _ => none
 
